@@ -150,6 +150,16 @@ func (x *Exec) evalIdent(env *SpecEnv, id *ast.Ident) specVal {
 	case "nil":
 		return specVal{term: "pnull", typ: untypedNil}
 	}
+	if id.Name == "G_idx" || strings.HasPrefix(id.Name, "G_idx__") {
+		// $idx: the hidden index of a range loop (index of the last element processed, -1 before
+		// the first iteration); $idx__2 for the second range loop of the function
+		if _, bound := env.names[id.Name]; !bound && env.fr != nil {
+			n := "rangeindex" + strings.TrimPrefix(id.Name, "G_idx")
+			if v, ok := x.localByName(env, env.fr, n); ok {
+				return v
+			}
+		}
+	}
 	if strings.HasPrefix(id.Name, "G_") {
 		name := id.Name[2:]
 		if g, ok := x.db.Ghosts[name]; ok {
@@ -831,7 +841,8 @@ func (x *Exec) evalRealCall(env *SpecEnv, c *ast.CallExpr) specVal {
 	}
 	var res []string
 	key := fn.String()
-	if fc, ok := x.db.Funcs[key]; ok && x.mode != "lemma" {
+	forceInline := x.lemmaInline[fn.Name()] || (x.topC != nil && (x.topC.Inline[fn.Name()] || x.topC.Inline[shortFn(fn)]))
+	if fc, ok := x.db.Funcs[key]; ok && (x.mode != "lemma" || fc.Extern || fc.Trusted != "") && !forceInline {
 		var ats []types.Type
 		for _, a := range args {
 			ats = append(ats, a.typ)
